@@ -26,6 +26,8 @@ CHECKS = {
          "seeded search over the arrival of 1-2 extra callers during init, runtime work, extension tail, timeout reset, failure reset and inside lock windows of the first caller's own path; decides pairwise disjointness of in-flight intervals, immediate 4xx refusal, unchanged outcomes of the planned invocations and that the emulator survives; sampled"),
  "C02": ("exploration", "3 C02", "full-stack deterministic simulation: adversarial submissions over invocation histories and zombie requests held at lock sites across resets; reference-register oracle",
          "seeded search over histories (ok/error/timeout/exit) with stale, unknown, empty and duplicate submissions, and over zombie requests of a dying runtime held at 10 lock sites of validator, handlers, state machine and interop server while reset, reservation, dispatch and response of later invocations proceed; decides accept-iff-in-flight-once, bodies delivered to callers, and that the legitimate runtime is never refused; sampled; two zombie-request defects are recorded as known findings"),
+ "C07": ("exploration", "3 C07", "full-stack deterministic swarm simulation: random (mis)behaving party scripts over several faulty generations, lock-grant reordering and inventory-drawn holds; liveness/body/recovery oracle",
+         "seeded swarm over scripts drawn from the full Runtime/Extensions API alphabet including misuse, stalls, exits, crashes while parked and truncated bodies, over 2-5 faulty generations followed by healthy ones, with 25-75% lock-grant reordering and goroutine holds at sites drawn from the tree's own lock-site inventory; decides that the emulator neither crashes nor wedges, that every invocation is answered within the bound with an admissible body, and that service recovers; sampled"),
 }
 
 NA = [
